@@ -39,12 +39,14 @@ def widen_strings(rng, schema, pop):
 
 class Layout:
     """a reproducible layout: separators per gap class"""
-    def __init__(self, seed, ws=True, comment_classes=(), comments=None, every_gap=False):
+    def __init__(self, seed, ws=True, comment_classes=(), comments=None, every_gap=False, header=0):
         self.seed, self.ws, self.cc, self.comments, self.every_gap = seed, ws, tuple(comment_classes), comments, every_gap
+        self.header = header
 
     def render(self, schema_name, pop):
+        hdr = W.HEADERS[self.header % len(W.HEADERS)]
         if not self.ws and not self.cc:
-            return W.render_file(schema_name, pop)
+            return W.render_file(schema_name, pop, header=hdr)
         rng = random.Random(self.seed)
         names = self.comments or list(NAMED_COMMENTS)
         old = W.COMMENTS
@@ -55,13 +57,13 @@ class Layout:
         if self.every_gap:
             W.P_COMMENT = 1.0
         try:
-            return W.render_file(schema_name, pop, rng, self.cc)
+            return W.render_file(schema_name, pop, rng, self.cc, header=hdr)
         finally:
             W.COMMENTS, W.WS, W.P_COMMENT = old, old_ws, old_p
 
     def describe(self):
         return {"seed": self.seed, "ws": self.ws, "comment_classes": list(self.cc), "comments": self.comments,
-                "every_gap": self.every_gap}
+                "every_gap": self.every_gap, "header": self.header}
 
 
 class Case:
@@ -92,12 +94,13 @@ def gen_cases(ctx, lib, n, allowed_classes):
                 pop = W.respell(rng, lib.schema, pop)
                 resp = True
             lay, tag = Layout(rng.randrange(1 << 30), comment_classes=cc), "comments:" + "+".join(cc)
+        lay.header = k % len(W.HEADERS) if k % 2 == 0 else 0
         cases.append(Case(lib, pop, lay, resp, tag))
     return cases
 
 
 # ------------------------------------------------------------------ the oracle (C01's statement on the implementation)
-def oracle(pop, rr):
+def oracle(pop, rr, in_text=None):
     """None when the implementation's behaviour satisfies the statement for this conforming file"""
     if rr.died:
         return "implementation died: " + rr.died
@@ -116,6 +119,10 @@ def oracle(pop, rr):
             return "written file denotes a different population: " + d
     if "FILE_SCHEMA" not in header or "FILE_DESCRIPTION" not in header or "FILE_NAME" not in header:
         return "header entities missing in the written file"
+    if in_text is not None:
+        hd = R.header_diff(in_text, rr.out1)
+        if hd:
+            return "the written header differs from the header read: " + hd
     if rr.out2 is None:
         return "the written file could not be read and written again"
     if R.mask_time(rr.out2) != R.mask_time(rr.out1):
@@ -249,7 +256,7 @@ def evaluate(ctx, b, lib, cases, model_exe):
         ctx.hist("literals", "respelled" if c.respelled else "canonical")
         for i in c.pop:
             ctx.hist("instances", "complex" if i.is_complex else "simple")
-        msg = oracle(c.pop, rr)
+        msg = oracle(c.pop, rr, c.text)
         if msg:
             n_viol += 1
             if len(ctx.violations) + len(ctx.known) < 12:
